@@ -321,6 +321,11 @@ func (fr *frame) fmtTyped(t types.Type, v value, verb byte, depth int, plus, sha
 			}
 			return strSegs(fmt.Sprintf("%"+string(verb), n))
 		case ut.Info()&types.IsFloat != 0:
+			if sf, ok := v.(SymFloat); ok && sf.K == types.Float32 && (verb == 'v' || verb == 'g') {
+				// no opaque token for 32-bit texts: bounded concretisation
+				f := fr.i.ex.concretiseF64(FpToFp(sf.T, SF64))
+				return strSegs(strconv.FormatFloat(f, 'g', -1, 32))
+			}
 			switch verb {
 			case 'v', 'g':
 				return numSegs(v)
